@@ -205,6 +205,8 @@ def check_property(pid, tier, seed):
         res.extra["translator"] = tinfo
         # 3. prove
         lean_mod = "PcProps." + pid
+        from . import gendriver
+        gendriver.generate()
         rc, logtxt, secs = core.lake_build(["pcdrv"])
         if rc != 0:
             emit_violation(ctx, "driver-build", _first_lean_error(logtxt),
